@@ -9,7 +9,12 @@ state produced by the step that ends at that time.
     not raise and must store exactly one value per requested time.
 (3) step protocol: a recording observable and a wrapped stepper: number of solver steps
     == len(target_times) - 1, recorded times == the target times that match a request, strictly
-    increasing, each taken after exactly k steps for target index k."""
+    increasing, each taken after exactly k steps for target index k.
+(4) requests within the matcher's tolerance of each other (different observables at 0.3 and 0.1+0.2, at 5e-11,
+    9.99e-11, three within 9e-11; duration 1000, dt 7), both backends: every observable must be stored exactly
+    once and the run must not raise (pulser: "Evaluation times must be unique up to 1e-12").
+`--residual`: what the code does in the regime excluded by the separation clause's hypothesis (chains longer
+    than the tolerance); informational, exit 0."""
 import dataclasses
 import json
 import os
